@@ -113,6 +113,12 @@ def build_executor(plan):
     S.consts["errno"] = errno_mod if "errno_mod" in dir() else __import__("errno")
     import rpyc.core.protocol as protocol_mod, rpyc.core.consts as consts_mod
     S.consts["HANDLERS"] = protocol_mod.Connection._request_handlers()
+    import rpyc.version as version_mod
+    S.consts["VERSION_STRING"] = version_mod.version_string
+    S.consts["VERSION_MAJOR"] = str(version_mod.version[0])
+    import builtins as builtins_mod
+    S.consts["BUILTINS_NAME"] = builtins_mod.__name__
+    S.consts["BUILTINS_MODULE"] = builtins_mod
     S.consts["TRUE"], S.consts["FALSE"] = True, False
     for _k, _v in vars(consts_mod).items():
         if _k.isupper():
@@ -184,6 +190,7 @@ def check_property(pid, tier, seed):
     unsupported = []     # (target, behaviour, reason)
     functions = []
     assumed_behaviours = []
+    deferred_behaviours = []
     for target in plan["targets"]:
         c = ex.store.contracts.get(target)
         if c is None:
@@ -203,6 +210,9 @@ def check_property(pid, tier, seed):
         for b in c.behaviours:
             if c.behaviours[b].trusted:
                 assumed_behaviours.append("%s[%s]" % (target, b))
+                continue
+            if c.behaviours[b].thorough_only and tier == "quick":
+                deferred_behaviours.append("%s[%s]" % (target, b))
                 continue
             before = len(ex.obligations)
             try:
@@ -349,6 +359,14 @@ def check_property(pid, tier, seed):
         vac.append({"behaviour": "%s[%s]" % tb, "inputs_satisfying_requires": nr.get("satisfying", 0)})
         if not nr.get("error") and nr.get("satisfying", 0) == 0:
             errors.append("vacuity: no native input satisfies the preconditions of %s[%s]" % tb)
+    # failing enumerated cases: listed under a recorded finding, or violations (the enumeration itself is the failing input)
+    for f in [f for f in finite_results if not f["ok"]]:
+        kf = match_known(known, f["id"], None)
+        if kf is not None:
+            known_hits.append((kf, f["id"]))
+            continue
+        path = write_replay(pid, f["id"], "finite", "", {"finite": f})
+        violations.append(("%s (%s)" % (f["id"], f["detail"]), path, True))
     # ---- report --------------------------------------------------------------------------------
     # each matched known finding: its recorded witness must still fail on this tree (scenario replay); if it does
     # not, the failing obligation is something else and is reported as a violation
@@ -378,12 +396,6 @@ def check_property(pid, tier, seed):
         print("CHECKER-ERROR %s" % e)
     n_obl = len(obligations) + len(finite_results)
     n_dis = sum(by_backend.values()) + n_finite_ok
-    finite_bad = [f for f in finite_results if not f["ok"]]
-    for f in finite_bad:
-        path = write_replay(pid, f["id"], "finite", "", {"finite": f})
-        print("VIOLATION property=%s replay=%s" % (pid, path))
-        print("  failed obligation: %s (%s)" % (f["id"], f["detail"]))
-        violations.append((f["id"], path, True))
     timings.sort(reverse=True)
     wall = time.time() - t_start
     level = "proof"
@@ -412,6 +424,7 @@ def check_property(pid, tier, seed):
             "assumed_contracts_used": sorted({"%s[%s]" % tb for tb in ex.used_callee_clauses
                                               if ex.store.contracts[tb[0]].trusted or ex.store.contracts[tb[0]].behaviours[tb[1]].trusted}
                                              | set(assumed_behaviours)),
+            "behaviours_left_to_the_thorough_tier": deferred_behaviours,
             "lemmas_used": sorted(ex.used_lemmas),
             "composition_hypotheses": comp_used,
             "bounded_stand_ins": bounded,
